@@ -318,6 +318,10 @@ func (c *controlConn) setupConn(conn *Conn) error {
 	}
 
 	c.conn.Store(ch)
+	if atomic.LoadInt32(&c.state) == controlConnClosing {
+		// close() may have run before the Store above and closed only the previous connection
+		return errors.New("gocql: control connection is closing")
+	}
 	if c.session.initialized() {
 		// We connected to control conn, so add the connect the host in pool as well.
 		// Notify session we can start trying to connect to the node.
